@@ -1,16 +1,16 @@
 SPECIFICATION Spec
 CONSTANTS
   Part = "socket"
-  Deliverers = {d1, d2, d3}
+  Deliverers = {d1, d2}
   Closers = {c1, c2}
-  MaxReads = 3
+  MaxReads = 2
   ChanClosedBy = "nobody"
   WatcherQuitsOnDone = FALSE
   ListenerOrder = "ql_first"
   PingReaderCtx = "ping"
   PingErrSend = "select"
   PingUnrMax = 2
-  DeliveryHoldsRLock = FALSE
+  DeliveryHoldsRLock = TRUE
   KF_HalfCloseOnly = TRUE
 INVARIANTS
   TypeOK
